@@ -170,6 +170,16 @@ Theorem pcm16_file_roundtrip : forall bs hs pre chans count rate filler,
 Proof. exact pcm16_file_roundtrip_l. Qed.
 Print Assumptions pcm16_file_roundtrip.
 
+Theorem pcm16_file_any_dtype : forall bs hs pre chans count rate filler,
+  0 < bs -> forall be d samples extra,
+  layout hs pre Pcm 2 (Some (order_name be)) chans count rate filler ->
+  len samples = count * chans -> Forall int16_range samples ->
+  sphere_read_bs bs (std_file hs pre Pcm 2 (Some (order_name be)) chans count rate filler
+                              (encode_items 2 be samples ++ extra)) (Some d)
+  = Decoded false d (shape_of count chans) (map Some (map (cast d) samples)).
+Proof. exact pcm16_file_any_dtype_l. Qed.
+Print Assumptions pcm16_file_any_dtype.
+
 Theorem pcm16_file_truncated : forall bs hs pre chans count rate filler,
   0 < bs -> forall be samples partial n,
   layout hs pre Pcm 2 (Some (order_name be)) chans count rate filler ->
